@@ -40,7 +40,7 @@ def gen(rep, tier, kinds, expects, clauses, hashseeds=(0,)):
     if tier == "quick" and expects != ALL_EXPECTS:
         scopes.append((2, 2))
     sc = engine.scratch()
-    mon = {"truth": [], "rule": []}
+    mon = {"truth": [], "rule": [], "writeback": []}
     for maxrows, nkeys in scopes:
         r = engine.run_tlc("Gen_Join", _gen_cfg(maxrows, nkeys, kinds, expects), timeout=1500)
         rep.add_mc(r, f"Gen_Join rows<={maxrows} keys={nkeys}")
@@ -65,6 +65,7 @@ def gen(rep, tier, kinds, expects, clauses, hashseeds=(0,)):
                              f["observed"], f["expected"])
             mon["truth"] += out["truth"]
             mon["rule"] += out["rule"]
+            mon["writeback"] += out.get("writeback", [])
     rep.extra.setdefault("hashseeds", list(hashseeds))
     return mon
 
@@ -79,6 +80,7 @@ def trace(rep, tier, seed, clauses, kinds=None, hashseed=0):
     engine.run_driver("drv_rel.py", ["record_join", str(seed), str(n), str(maxrows), raw], hashseed=hashseed)
     evs = engine.read_ndjson(raw)
     mon = evs.pop()
+    mon.setdefault("writeback", [])
     use = []
     for e in evs:
         if e.get("skipped"):
